@@ -104,7 +104,30 @@ def _worker_run(args):
     yr = sys.modules.get("ymc.yrun")
     if yr is not None and hasattr(yr, "pop_cardlog"):
         res["cards"] = yr.pop_cardlog()
+    _attach_failed_runs(res)
     return res
+
+
+def _attach_failed_runs(res):
+    """real runs that a relation needed but that crashed / were wrongly rejected (collected by rel.try_run) become violations of the running check."""
+    rl = sys.modules.get("ymc.rel")
+    if rl is None or not hasattr(rl, "pop_failed"):
+        return
+    failed = rl.pop_failed()
+    seen = set()
+    for f in failed:
+        k = (f["exc"], f["site"], f["why"])
+        if k in seen or len(seen) >= 2:
+            continue
+        seen.add(k)
+        res.setdefault("violations", []).append(
+            {
+                "fp": {"cls": "run-failed", "exc": f["exc"], "site": f["site"], "inner": f.get("inner"), "why": f["why"]},
+                "fpkey": {"cls": "run-failed", "exc": f["exc"], "site": f["site"], "why": f["why"]},
+                "msg": f"a real run this check needs failed ({f['why']}): {f['exc']} at {f['site']} ({f.get('inner')}): {f['excmsg'][:160]} :: cell {f['cell'][:300]}",
+            }
+        )
+        res["nontrivial"] = res.get("nontrivial") or True
 
 
 def _worker_sweep(args):
@@ -124,6 +147,7 @@ def _worker_sweep(args):
                 res = _PROP.execute(state)
             except Exception as e:
                 res = {"violations": [], "harness_error": f"{type(e).__name__}: {e}\n{traceback.format_exc()}", "outcome": "harness_error"}
+            _attach_failed_runs(res)
             oc = res.get("outcome")
             oc = canon(sorted(oc) if isinstance(oc, (list, tuple, set)) else oc)
             rec = {"idx": idx, "chunk": chunk_id, "sweep": sweep, "violations": res.get("violations", []), "harness_error": res.get("harness_error"), "outcome": oc}
@@ -542,9 +566,11 @@ def run_replay(prop, path):
     for h in rep.get("history", []):
         try:
             prop.execute(h)  # earlier executions in the same process; their own verdicts are not the point here
+            _attach_failed_runs({})
         except Exception:
             pass
     res = prop.execute(state)
+    _attach_failed_runs(res)
     vs = res.get("violations", [])
     if hasattr(prop, "finalize") and not vs and rep.get("fp", {}).get("finalize"):
         vs = prop.finalize([(state, res)])
